@@ -39,7 +39,7 @@ pub struct StreamCase {
     pub kib: u32,
     /// Seed of the piece-size / method plan.
     pub plan_seed: u32,
-    /// Largest piece, in bytes (at most 512 KiB).
+    /// Largest piece, in bytes (at most 1 MiB).
     pub max_piece: u32,
     /// Drain after every `every`-th call.
     pub every: u8,
@@ -52,7 +52,7 @@ pub fn stream_case(min_kib: u32, max_kib: u32) -> impl Strategy<Value = StreamCa
         0u8..4,
         min_kib..=max_kib,
         any::<u32>(),
-        prop_oneof![Just(4096u32), Just(65_536u32), Just(300_000u32), Just(524_288u32)],
+        prop_oneof![Just(4096u32), Just(65_536u32), Just(300_000u32), Just(524_288u32), Just(1u32 << 20)],
         prop_oneof![4 => Just(1u8), 1 => 2u8..5],
         prop_oneof![
             3 => Just(DrainHow::AllSlices),
@@ -113,7 +113,7 @@ impl Plan {
     fn new(seed: u32, max_piece: u32) -> Self {
         Plan {
             st: seed as u64 ^ 0xabcdef12345,
-            max_piece: (max_piece as usize).clamp(1, 512 * 1024),
+            max_piece: (max_piece as usize).clamp(1, 1 << 20),
             left_in_phase: 0,
             lo: 1,
             hi: 1,
@@ -136,7 +136,9 @@ impl Plan {
                 0 => (1, 16, 40),
                 1 => (100, 1000, 60),
                 2 | 3 => (4096, 65_536, 40),
-                4 | 5 => (65_536, 524_288, 12),
+                4 => (65_536, 524_288, 12),
+                // Exactly the largest piece allowed (with max_piece = 1 MiB: requests of exactly 2^20 bytes).
+                5 => (self.max_piece, self.max_piece, 6),
                 6 => (252, 260, 30),
                 _ => (63_990, 64_030, 10),
             };
